@@ -1854,3 +1854,8 @@ def _result_files(ctx):
     ctx.obligation('the exit-code assertion reads sds.result.exitcode_file (contract of _get_exit_code) and the ATC '
                    'executor writes tcds.sds.result.exitcode_file (contract of _store_exit_code): same property',
                    g._ExitCodeGetter(tcds)._sds is tcds.sds, 'enumeration')
+
+
+# Assumed summaries of this module that follow from contracts PROVED for another property (Module.implied_by, ENGINE.md):
+# the refinement obligations are generated by this property's check and the proved contract is re-proved here.
+M.implied_by('exactly_lib.symbol.symbol_syntax:is_symbol_name', 'C09')
